@@ -32,11 +32,42 @@ deriving DecidableEq, Repr
 def Lib.name : Lib → String
   | .eigh => "eigh" | .eig => "eig" | .eigsh => "eigsh" | .eigs => "eigs"
 
-/-- `self.is_hermitian`: a user flag / the value cached by an earlier response wins, else detection on `A` and `B` -/
-def isHermitian (cached : Option Bool) (Aherm : Bool) (Bherm : Option Bool) : Bool :=
-  match cached with
+/-- `self.is_hermitian` for the current matrices: the user's flag (`hermitian=` argument) wins, else the flag is
+detected again for EVERY response on `A` and `B` (as repaired: it is no longer cached from the first matrix) -/
+def isHermitian (user : Option Bool) (Aherm : Bool) (Bherm : Option Bool) : Bool :=
+  match user with
   | some h => h
   | none => Aherm && Bherm.getD true
+
+/-- the state `_response` keeps between calls that matters for the dispatch: the last Hermitian flag and whether a
+shift-invert solver `self.Ainv` exists -/
+structure HistState where
+  herm : Option Bool      -- `self.is_hermitian` (initially the user's flag, possibly `None`)
+  hasAinv : Bool          -- `self.Ainv is not None`
+deriving DecidableEq, Repr
+
+def HistState.init (user : Option Bool) : HistState := ⟨user, false⟩
+
+/-- one `_response` of a module with history: returns the new state, the library routine, and whether a NEW shift-invert
+solver is chosen (`self.Ainv is None` on the sparse path; `Ainv` is dropped when the detected flag changes) -/
+def historyStep (user : Option Bool) (st : HistState) (Aherm : Bool) (Bherm : Option Bool) (sparse : Bool) :
+    HistState × Lib × Bool :=
+  let herm := match user with
+    | some h => h
+    | none => Aherm && Bherm.getD true
+  let hasAinv := match user with
+    | some _ => st.hasAinv
+    | none => if some herm ≠ st.herm then false else st.hasAinv
+  let lib := if sparse then (if herm then Lib.eigsh else Lib.eigs) else (if herm then Lib.eigh else Lib.eig)
+  let newAinv := sparse && !hasAinv
+  (⟨some herm, hasAinv || sparse⟩, lib, newAinv)
+
+/-- a whole history of responses -/
+def historyRun (user : Option Bool) : HistState → List (Bool × Option Bool × Bool) → List (Lib × Bool)
+  | _, [] => []
+  | st, (a, b, sp) :: rest =>
+    let r := historyStep user st a b sp
+    (r.2.1, r.2.2) :: historyRun user r.1 rest
 
 /-- `self.is_sparse` -/
 def isSparse (Asparse : Bool) (Bsparse : Option Bool) : Bool := Asparse && Bsparse.getD true
@@ -152,10 +183,31 @@ def sparseEigvecMode {n : ℕ} (zsolveT : (Fin n → α) → (Fin n → α))
     (B : Matrix (Fin n) (Fin n) α) (lam : α) (phi dphi : Fin n → α) :
     ((Fin n → α) × (Fin n → α)) × ((Fin n → α) × (Fin n → α)) :=
   let alpha := -(phi ⬝ᵥ dphi)
-  let r := dphi + alpha • (Bᵀ *ᵥ phi)
-  let vp := zsolveT r
+  -- every stored numpy vector is evaluated once (`Tab.get_tabulate`: semantically the identity)
+  let rT := tabulate (replicateCol (Fin 1) (dphi + alpha • (Bᵀ *ᵥ phi)))
+  let r : Fin n → α := fun i => rT.get i 0
+  let vpT := tabulate (replicateCol (Fin 1) (zsolveT r))
+  let vp : Fin n → α := fun i => vpT.get i 0
   let c := -(vp ⬝ᵥ (B *ᵥ phi))
-  let v := vp + c • phi
-  ((-v, phi), ((alpha / 2) • phi + lam • v, phi))      -- dAi = −v φᵀ ; dBi = (α/2 φ + λ v) φᵀ
+  let vT := tabulate (replicateCol (Fin 1) (vp + c • phi))
+  let v : Fin n → α := fun i => vT.get i 0
+  let wT := tabulate (replicateCol (Fin 1) ((alpha / 2) • phi + lam • v))
+  ((fun i => -(v i), phi), (fun i => wT.get i 0, phi))      -- dAi = −v φᵀ ; dBi = (α/2 φ + λ v) φᵀ
+
+/-- `_sparse_eigvec_sens(A, B, dW, dQ)`: the eigenvalue part (if `dW` is given) plus, for every mode whose seed column is
+not identically zero, `dA −= v φᵀ`, `dB += (α/2 φ + λ v) φᵀ` (real parts for real inputs); `B` is the identity when the
+module has no `B` input. `zsolveT i` is the adjoint solver of mode `i`. -/
+def sparseEigvecSens [DecidableEq α] {n m : ℕ} (R : RealPart α) (Areal Breal : Bool)
+    (zsolveT : Fin m → (Fin n → α) → (Fin n → α))
+    (B : Option (Matrix (Fin n) (Fin n) α)) (W : Fin m → α) (Q : Matrix (Fin n) (Fin m) α)
+    (dW : Option (Fin m → α)) (dQ : Matrix (Fin n) (Fin m) α) : Dyads n n α × Dyads n n α :=
+  let Bm := B.getD 1
+  let base : Dyads n n α × Dyads n n α := match dW with
+    | some d => sparseEigvalSens R Areal Breal B W Q d
+    | none => ([], [])
+  let modes := (List.finRange m).filter (fun i => !decide (∀ r, dQ r i = 0))
+  let md := fun i => sparseEigvecMode (zsolveT i) Bm (W i) (fun r => Q r i) (fun r => dQ r i)
+  (base.1 ++ modes.flatMap (fun i => if Areal then Dyads.real R [(md i).1] else [(md i).1]),
+   base.2 ++ modes.flatMap (fun i => if Breal then Dyads.real R [(md i).2] else [(md i).2]))
 
 end PymotoVerif.Eigen
